@@ -4,6 +4,7 @@ import FlVerif.Lemmas.Antecedent
 import FlVerif.Lemmas.CodeLoadAnte
 import FlVerif.Lemmas.CodeDegree
 import FlVerif.Lemmas.CodeDegreeAggr
+import FlVerif.Lemmas.CodeWave5ZRule       -- `Proposition.__str__`, `Antecedent.prefix / infix / postfix`
 
 /-! # C06 — Rule antecedents mean what the rule grammar says
 
@@ -89,6 +90,39 @@ theorem code_aggregatedDegree (agg : Option (X ℚ → X ℚ → X ℚ)) (raw : 
     ∃ σ, Gen.Code.Aggregated_activation_degree.run agg (raw.map (fun a => (a.1, Op.Weighted.setDegree a.2))) t {} = .ok σ ∧
       σ.ret = some (aggregatedDegree (Op.Weighted.aggregationOr agg) (raw.map (fun a => (a.1.name, a.2))) t.name) :=
   Op.code_aggregatedDegree agg raw t
+
+/-! ## the texts of a loaded antecedent -/
+
+/-- **Tie A (code → model).**  `Proposition.__str__` on a proposition of the loader (`Py.Load.Proposition`: a hedge / term
+    object is its name): `variable is hedge* term`, the parts that are set, joined by single blanks. -/
+theorem code_propositionStr (p : Py.Load.Proposition) :
+    ∃ σ, Gen.Code.Proposition_str.run p {} = .ok σ ∧ σ.ret = some (AntecedentText.propText p) :=
+  CodeW5Z.code_propositionStr p
+
+/-- **Tie A (code → model).**  `Antecedent.prefix(node)` on the tree `Antecedent.load` builds (`expression` is
+    `self.expression`, `node = .none` the call without argument): `RuntimeError` when nothing is loaded, otherwise the
+    operator name before its operands; an operand that is `None` contributes nothing.  The recursion bound is never
+    exhausted. -/
+theorem code_antecedentPrefix (expression node : Py.Load.Expression) :
+    match AntecedentText.render AntecedentText.pfxText expression node with
+    | .error k => Gen.Code.Antecedent_prefix.run expression node {} = .error k.toPy
+    | .ok s => ∃ σ, Gen.Code.Antecedent_prefix.run expression node {} = .ok σ ∧ σ.ret = some s :=
+  CodeW5Z.code_antecedentPrefix expression node
+
+/-- **Tie A (code → model).**  `Antecedent.infix(node)`: the operator name between its operands (no parentheses are
+    written: the text of `(a or b) and c` reads `a or b and c`). -/
+theorem code_antecedentInfix (expression node : Py.Load.Expression) :
+    match AntecedentText.render AntecedentText.infText expression node with
+    | .error k => Gen.Code.Antecedent_infix.run expression node {} = .error k.toPy
+    | .ok s => ∃ σ, Gen.Code.Antecedent_infix.run expression node {} = .ok σ ∧ σ.ret = some s :=
+  CodeW5Z.code_antecedentInfix expression node
+
+/-- **Tie A (code → model).**  `Antecedent.postfix(node)`: the operator name after its operands. -/
+theorem code_antecedentPostfix (expression node : Py.Load.Expression) :
+    match AntecedentText.render AntecedentText.postText expression node with
+    | .error k => Gen.Code.Antecedent_postfix.run expression node {} = .error k.toPy
+    | .ok s => ∃ σ, Gen.Code.Antecedent_postfix.run expression node {} = .ok σ ∧ σ.ret = some s :=
+  CodeW5Z.code_antecedentPostfix expression node
 
 /-! ## grammar: every writing of every antecedent loads to that antecedent -/
 
